@@ -24,6 +24,7 @@ bounded_tasks / replay.  cex["fn"] values are prefixed "b04:".
 from __future__ import annotations
 
 import contextlib
+import gc
 import io
 import itertools
 import math
@@ -32,6 +33,7 @@ import random
 import shutil
 import tempfile
 import time
+import weakref
 import zlib
 
 import numpy as np
@@ -409,6 +411,32 @@ class World:
             self._write(kind, spec, P, 7, 201)
         return self._load(self._files[kind])
 
+    # -- short-lived objects (scope family "argument lifetimes"): one allocation of the object itself per call, so
+    #    that CPython can hand the address of a dead accepted argument to the next object of the same size
+    def _tpl(self, kind):
+        t = getattr(self, "_templates", None)
+        if t is None:
+            t = self._templates = {}
+        if kind not in t:
+            t[kind] = self._load(self.ref_files) if kind == "arg" else self.new_other(kind)
+        return t[kind]
+
+    def fresh_arg(self, pos, resids):
+        return self.place(self._tpl("arg").copy(), pos, resids)
+
+    def fresh_other(self, kind, n=0):
+        if kind == "None":
+            return None
+        if kind == "Residue":
+            return self._tpl("arg").residues[0].copy()
+        if kind == "ndarray":
+            return np.array(self.refpos)
+        if kind == "MoleculeTop":
+            return self._tpl("arg").molecule_top.copy()
+        if kind == "str":
+            return "molecule-%d" % n
+        return self._tpl(kind).copy()
+
     # -- the statement's oracle: a freshly built, never-called map on fresh objects
     def expected(self, scale, pos, resids):
         key = (float(scale), np.asarray(pos, dtype=float).tobytes(), tuple(int(r) for r in resids))
@@ -619,6 +647,9 @@ class Run:
         self.snaps = {k: snap(v) for k, v in self.tracked.items()}
         self.results = []
         self.mutated = False      # a construction molecule was changed after construction
+        self.freed_ids = set()     # addresses of accepted arguments that are dead now
+        self.stats = {"temporaries": 0, "temporaries_not_freed": 0, "fresh_rejected_objects": 0,
+                      "rejected_at_address_of_dead_accepted_argument": 0, "reuse_by_kind": {}}
         self.rejected_since_call = False
         factory = map_factory or (lambda r, t, s: ExchangeMap(r, t, scale_factor=s))
         self.em = factory(self.ref, self.tgt, self.scale)
@@ -665,6 +696,10 @@ class Run:
             self._mut(op[1], op[2], op[3])
         elif kind == "setarg":
             self._setarg(int(op[1]), op[2])
+        elif kind == "tmpcall":
+            self._tmpcall(int(op[1]))
+        elif kind == "fresh_rej":
+            self._fresh_rej(op[1], int(op[2]))
         else:
             raise HarnessError(f"unknown op {op}")
 
@@ -764,6 +799,93 @@ class Run:
         self._frames()
         self.rejected_since_call = True
 
+    def _tmpcall(self, k):
+        """Map a TEMPORARY argument (conformation k of the pool, new object) and drop every reference to it."""
+        c = self.confs[k]
+        resids = list(c["resids"])
+        a = self.world.fresh_arg(c["pos"], resids)
+        before = snap(a)
+        P = before[0].copy()
+        rk = self._result_kind()
+        self._ev(rk)
+        res = fp = None
+        try:
+            with _quiet():
+                res = self.em(a)
+            fp = fingerprint(res)
+        except Exception as e:
+            self._fail(rk, f"mapping a temporary argument (conformation #{k}, same species as the reference) raised "
+                           f"{_exc(e)}; a result is required")
+        self.rejected_since_call = False
+        if fp is not None:
+            d = fp_diff(fp, self.world.expected(self.scale, P, resids))
+            if d:
+                ctx = {"history": "after the preceding calls", "later": "after the construction molecules were moved",
+                       "usable": "after a rejected argument"}[rk]
+                self._fail(rk, f"result for a temporary argument (conformation #{k}) {ctx} differs from what a freshly "
+                               f"built map returns: " + "; ".join(d[:3]))
+            self._ev("shape")
+            d = (shape_diff(fp, self.world.tgtspec, resids) if self.world.tgtspec is not None
+                 else shape_diff_shipped(fp, self.tgt_fp, resids))
+            if d:
+                self._fail("shape", f"result for a temporary argument (conformation #{k}): " + "; ".join(d[:3]))
+            if self.world.refspec is not None:
+                self._ev("follows")
+                d = follows_diff(self.world, self.scale, fp, P, c.get("rigid"))
+                if d:
+                    self._fail("follows", f"result for a temporary argument (conformation #{k}): " + "; ".join(d[:2]))
+        self._ev("frame_arg")
+        d = snap_diff(before, snap(a))
+        if d:
+            self._fail("frame_arg", f"temporary argument (conformation #{k}) was altered by op {self.step}: " + "; ".join(d))
+        self._frames()
+        # the caller lets the argument (and the result) die
+        self.stats["temporaries"] += 1
+        self.freed_ids.add(id(a))
+        wr = weakref.ref(a)
+        del a, res
+        if wr() is not None or self.stats["temporaries"] % 25 == 0:
+            gc.collect()
+        if wr() is not None:
+            self.stats["temporaries_not_freed"] += 1
+
+    def _fresh_rej(self, kind, count):
+        """`count` freshly allocated rejected arguments of one kind in a row (all alive during the batch)."""
+        objs = []
+        for i in range(count):
+            bad = self.world.fresh_other(kind, self.step * 100 + i)
+            objs.append(bad)
+            self.stats["fresh_rejected_objects"] += 1
+            reused = id(bad) in self.freed_ids
+            if reused:
+                self.stats["rejected_at_address_of_dead_accepted_argument"] += 1
+                self.stats["reuse_by_kind"][kind] = self.stats["reuse_by_kind"].get(kind, 0) + 1
+            is_mol = hasattr(bad, "atoms_positions") and kind != "Residue"
+            before = snap(bad) if is_mol else None
+            note = " (allocated at the address of an accepted argument that is dead now)" if reused else ""
+            self._ev("typeerror")
+            try:
+                with _quiet():
+                    r = self.em(bad)
+                self._fail("typeerror", f"fresh argument of kind {kind}{note} was accepted (returned {type(r).__name__}); "
+                                        f"expected TypeError")
+                del r
+            except TypeError:
+                pass
+            except Exception as e:
+                self._fail("typeerror", f"fresh argument of kind {kind}{note} raised {_exc(e)}; expected TypeError")
+            if is_mol:
+                self._ev("frame_arg")
+                try:
+                    d = snap_diff(before, snap(bad))
+                except Exception as e:
+                    d = [f"cannot be read any more: {_exc(e)}"]
+                if d:
+                    self._fail("frame_arg", f"rejected fresh argument of kind {kind} was altered by op {self.step}: " + "; ".join(d))
+        self._frames()
+        self.rejected_since_call = True
+        del objs
+
     def _mut(self, who, how, params):
         mol = self.ref if who == "ref" else self.tgt
         p = np.array(params, dtype=float)
@@ -809,7 +931,7 @@ def _state_changes(before, after):
         return "state differs"
 
 
-def run_ops(world, scale, confs, ops, map_factory=None):
+def run_ops(world, scale, confs, ops, map_factory=None, stats=None):
     """Returns (fails, evals).  `fails` = [(kind, step, detail)]."""
     needed = {int(op[1]) for op in ops if op[0] in ("call", "setarg")}
     if any(op[0] == "rej" and op[1] in ("Residue", "ndarray") for op in ops):
@@ -817,11 +939,19 @@ def run_ops(world, scale, confs, ops, map_factory=None):
     run = Run(world, scale, confs, map_factory=map_factory, needed=needed)
     for op in ops:
         run.do(op)
+    if stats is not None:
+        for k, v in run.stats.items():
+            if isinstance(v, dict):
+                d = stats.setdefault(k, {})
+                for kk, vv in v.items():
+                    d[kk] = d.get(kk, 0) + vv
+            else:
+                stats[k] = stats.get(k, 0) + v
     return run.fails, run.evals
 
 
-def _feed(tally, world, scale, confs, ops, family, nontrivial=True):
-    fails, evals = run_ops(world, scale, confs, ops)
+def _feed(tally, world, scale, confs, ops, family, nontrivial=True, stats=None, trim=True):
+    fails, evals = run_ops(world, scale, confs, ops, stats=stats)
     tally.runs += 1
     if nontrivial:
         tally.nontrivial += 1
@@ -835,7 +965,7 @@ def _feed(tally, world, scale, confs, ops, family, nontrivial=True):
         tally.nfail[kind] = tally.nfail.get(kind, 0) + 1
         if kind not in tally.first:
             tally.first[kind] = {"fn": "b04:ops", "world": world.describe(), "scale": scale, "confs": confs,
-                                 "ops": _jsonable(ops[:step + 1]), "clause": kind, "step": step, "family": family,
+                                 "ops": _jsonable(ops[:step + 1] if trim else ops), "clause": kind, "step": step, "family": family,
                                  "detail": detail, "signature": kind}
     if tally.sample is None:
         tally.sample = {"pair": world.desc.get("pair", world.desc.get("name")), "scale": scale, "ops": _jsonable(ops)[:12],
@@ -852,6 +982,11 @@ def _jsonable(o):
     if isinstance(o, (np.integer,)):
         return int(o)
     return o
+
+
+def _short_ops(ops):
+    t = str(ops)
+    return t if len(t) < 300 else "... " + t[-300:]
 
 
 def _obligations(tally, family, tag, secs):
@@ -872,7 +1007,7 @@ def _obligations(tally, family, tag, secs):
             out.append(ob(oid, "refuted", kind="bounded", engine="smallscope", backend="runtime-contract", secs=secs,
                           evaluations=n, nontrivial=tally.nontrivial,
                           reason=f"{tally.nfail[kind]} of {tally.runs} call sequences violate the clause; first: ops "
-                                 f"{cex['ops'] if len(str(cex['ops'])) < 300 else str(cex['ops'])[:300] + '...'}: {cex['detail']}",
+                                 f"{_short_ops(cex['ops'][:cex['step'] + 1])}: {cex['detail']}",
                           cex=cex, sample=tally.sample))
         else:
             out.append(ob(oid, "discharged", kind="bounded", engine="smallscope", backend="runtime-contract", secs=secs,
@@ -949,6 +1084,43 @@ def random_ops(world, rng, n_pool, length):
     return ops[:length]
 
 
+def lifetime_ops(world, n_pool, rounds, phase):
+    """Accepted arguments that die, then freshly allocated rejected arguments of every kind (several in a row),
+    then the next valid call; now and then a call with a long-lived pool argument."""
+    kinds = list(NON_MOLECULES) + list(world.species_kinds)
+    mol_kinds = list(world.species_kinds)
+    ops = []
+    for r in range(rounds):
+        ops.append(["tmpcall", 1 + (r + phase) % (n_pool - 1)])
+        if r % 7 == 3:
+            ops.append(["tmpcall", 1 + (r + phase + 1) % (n_pool - 1)])      # two dead arguments before the batch
+        # molecule kinds twice as often as non-molecules (same size class as the dead argument)
+        kind = mol_kinds[(r // 3 + phase) % len(mol_kinds)] if r % 3 != 2 else kinds[(r // 3 + phase) % len(kinds)]
+        ops.append(["fresh_rej", kind, 4])
+        if r % 10 == 9:
+            ops.append(["call", (r // 10) % n_pool])
+    ops.append(["tmpcall", 1])
+    return ops
+
+
+def _lifetimes_family(world, scale, confs, n_seq, rounds, tag, secs_from):
+    t = Tally()
+    stats = {}
+    for q in range(n_seq):
+        _feed(t, world, scale, confs, lifetime_ops(world, len(confs), rounds, q), "argument-lifetimes", stats=stats, trim=False)   # the whole allocate/free pattern is the failing input
+    if t.sample is not None:
+        t.sample = dict(t.sample, ops=t.sample["ops"][:8], **{"lifetimes": stats, "sequences": n_seq, "rounds_per_sequence": rounds})
+    out = _obligations(t, "argument-lifetimes", tag, time.time() - secs_from)
+    reused = stats.get("rejected_at_address_of_dead_accepted_argument", 0)
+    out.append(ob(f"{PROP}/{FN}/guard.lifetimes.rejected-object-at-address-of-dead-accepted-argument-observed/{tag}",
+                  "discharged" if reused > 0 else "undecided", kind="guard", engine="smallscope", backend="runtime-contract",
+                  expect="discharged", evaluations=stats.get("fresh_rejected_objects", 0), nontrivial=reused,
+                  reason=f"address reuse observed for {reused} of {stats.get('fresh_rejected_objects', 0)} fresh rejected objects "
+                         f"({stats.get('reuse_by_kind')}); {stats.get('temporaries', 0)} temporaries, "
+                         f"{stats.get('temporaries_not_freed', 0)} not freed", sample=stats))
+    return out
+
+
 def task_pair(rkey, tkey, scale, tier, seed):
     """All families for one generated reference/target pair and one scale factor."""
     t0 = time.time()
@@ -1004,6 +1176,8 @@ def task_pair(rkey, tkey, scale, tier, seed):
         secs = time.time() - t0
         for fam, t in fams:
             out += _obligations(t, fam, tag, secs / len(fams))
+        # E: argument lifetimes (accepted arguments die; rejected ones are allocated afresh, possibly at their address)
+        out += _lifetimes_family(world, scale, confs, 4 if thorough else 2, 150 if thorough else 80, tag, time.time())
         out += guards(world, scale, confs, tag)
     except HarnessError as e:
         out.append(ob(f"{PROP}/{FN}/harness/{tag}", "undecided", kind="bounded", engine="smallscope",
@@ -1071,6 +1245,7 @@ def task_shipped(name, scale, seed):
         secs = time.time() - t0
         for fam, t in fams:
             out += _obligations(t, fam, tag, secs / len(fams))
+        out += _lifetimes_family(world, scale, confs, 2, 100, tag, time.time())
         out += guards(world, scale, confs, tag)
     except HarnessError as e:
         out.append(ob(f"{PROP}/{FN}/harness/{tag}", "undecided", kind="bounded", engine="smallscope",
@@ -1207,7 +1382,11 @@ def bounded_info():
             "MoleculeTop, str, other molecule name, other atom name, more atoms, fewer atoms, unrelated species, the target), "
             "every (call i, change m, call j) and (m, call j) for 11 coordinate changes of the construction molecules, and "
             "seeded random histories up to length 30 mixing calls, repeats, rejected arguments, changes of the construction "
-            "molecules and of the arguments between calls.  After every operation every clause is evaluated: result equal "
+            "molecules and of the arguments between calls, and the family 'argument-lifetimes': 2x80 (quick) / 4x150 "
+            "(thorough) rounds per pair and scale in which accepted arguments are temporaries that die (all references "
+            "dropped, gc) before 4 freshly allocated rejected arguments of one kind (all 11 kinds in turn) are offered and "
+            "the next valid result is compared again -- so a rejected object can sit at the address of a dead accepted "
+            "argument (observed reuse is counted in the evidence and guarded).  After every operation every clause is evaluated: result equal "
             "(1e-12) to what a freshly built, never called map on freshly loaded molecules at the construction-time "
             "coordinates returns; result shape from the generator's tables; coordinates/velocities/ids of arguments, "
             "construction molecules and ALL previously returned molecules unchanged; TypeError for rejected arguments; and a "
@@ -1243,15 +1422,26 @@ def replay(prop, cex):
         world = World(cex["world"])
     except Exception as e:
         return {"reproduced": False, "note": f"replay harness error {_exc(e)}", "inputs": cex}
+    clause = cex.get("clause")
+    stats = {}
+    attempts = 0
     try:
-        fails, _ = run_ops(world, cex["scale"], cex["confs"], cex["ops"])
+        # "argument-lifetimes": the failing input is an allocate/free pattern (which address CPython hands to a fresh
+        # object depends on the heap of the process), so the same pattern is rebuilt up to 3 times
+        for attempts in range(1, (3 if cex.get("family") == "argument-lifetimes" else 1) + 1):
+            fails, _ = run_ops(world, cex["scale"], cex["confs"], cex["ops"], stats=stats)
+            if any(f[0] == clause for f in fails) or (not clause and fails):
+                break
     except Exception as e:
         return {"reproduced": False, "note": f"replay harness error {_exc(e)}", "inputs": cex}
     finally:
         world.close()
-    clause = cex.get("clause")
     mine = [f for f in fails if f[0] == clause]
-    return {"reproduced": bool(mine) if clause else bool(fails),
+    extra = {}
+    if cex.get("family") == "argument-lifetimes":
+        extra = {"allocation_pattern": dict(stats, attempts=attempts),
+                 "first_failing_op": (mine[0][1], cex["ops"][mine[0][1]]) if mine else None}
+    return {**extra, "reproduced": bool(mine) if clause else bool(fails),
             "observed": mine[0][2] if mine else ([f"{k}@op{s}: {d}" for k, s, d in fails[:5]] or "every clause holds"),
             "expected": f"clause {CLAUSES.get(clause, clause)} holds after every operation of the sequence "
                         f"(real ExchangeMap, real molecules, scale {cex['scale']})",
